@@ -74,6 +74,23 @@ def main():
     out.append("|---|---|---|---|---|")
     out += rows
     open(os.path.join(SD, "RESULTS.md"), "w").write("\n".join(out) + "\n")
+    # compact table for DESIGN.md section 12 (between the markers)
+    tab = ["| change | what it needs to manifest (short) | reported by | silent |", "|---|---|---|---|"]
+    for d in sorted(glob.glob(os.path.join(SD, "C*-m*"))):
+        sid = os.path.basename(d)
+        meta = json.load(open(os.path.join(d, "meta.json")))
+        cf = os.path.join(d, "checks.json")
+        hist = json.load(open(cf)) if os.path.exists(cf) else {}
+        needs = (meta.get("needs") or meta.get("summary") or "").replace("|", "/").replace("\n", " ")[:150]
+        rep = "; ".join(p for p, runs in sorted(hist.items()) if runs[-1]["exit"] != 0) or "—"
+        sil = "; ".join(p for p, runs in sorted(hist.items()) if runs[-1]["exit"] == 0) or "—"
+        tab.append("| %s | %s | %s | %s |" % (sid, needs, rep, sil))
+    dp = os.path.join(VERIF, "DESIGN.md")
+    ds = open(dp).read()
+    b, e = "<!-- seeded-table-begin -->", "<!-- seeded-table-end -->"
+    if b in ds and e in ds:
+        ds = ds[:ds.index(b) + len(b)] + "\n" + "\n".join(tab) + "\n" + ds[ds.index(e):]
+        open(dp, "w").write(ds)
     print("kept", kept, "caught", caught_any, "quick", caught_quick, "missed", missed, "first-missed", first_missed)
 
 
